@@ -581,6 +581,11 @@ fn type_bytes(kbi: usize, l: usize, bytes: &[u8]) -> Result<(Vec<(usize, u16)>, 
     let mut ed = new_layout(l);
     let mut handed = vec![];
     for (i, &c) in bytes.iter().enumerate() {
+        if c == 8 {
+            // Backspace: the editor calls remove_last
+            catch(AssertUnwindSafe(|| ed.remove_last()))?;
+            continue;
+        }
         let ev = catch(AssertUnwindSafe(|| kb.map_ascii(c)))?;
         let b = catch(AssertUnwindSafe(|| ed.key_press(ev)))?;
         match b {
@@ -596,8 +601,8 @@ fn type_bytes(kbi: usize, l: usize, bytes: &[u8]) -> Result<(Vec<(usize, u16)>, 
 }
 
 fn enters(kbi: usize, l: usize, bytes: &[u8], r: u16, rset: &BTreeSet<u16>) -> Result<(), String> {
-    if bytes.is_empty() || !bytes.iter().all(|c| (32..=126).contains(c)) {
-        return Err("not printable ASCII".into());
+    if bytes.is_empty() || !bytes.iter().all(|c| (32..=126).contains(c) || *c == 8) {
+        return Err("not printable ASCII / Backspace".into());
     }
     let (handed, empty) = type_bytes(kbi, l, bytes)?;
     if handed.len() != 1 || handed[0].0 != bytes.len() - 1 || !empty {
